@@ -609,6 +609,42 @@ func r14CallSites(c *RuleCtx) {
 		if !crcOK {
 			bad = append(bad, "CRC argument is not the Sum32() of the counting writer built over that same buffer")
 		}
+		// ... and that writer is fresh for this build on every path (the builder is pooled: a reused
+		// counting writer must have had its CRC and count zeroed)
+		{
+			tr := func(in ssa.Instruction, ev uint64, _ bool) []uint64 {
+				switch x := in.(type) {
+				case *ssa.Store:
+					if sn2, fld2, _, ok := fieldOf(x.Addr); ok && sn2 == "interim" && fld2 == "w" {
+						if mk, ok := x.Val.(*ssa.Call); ok {
+							if cf := mk.Call.StaticCallee(); cf != nil && isNamed(cf.Signature.Results().At(0).Type(), zapPkgPath, "CountHashWriter") && cf.Signature.Recv() == nil {
+								return []uint64{ev | 1}
+							}
+						}
+						return []uint64{ev &^ 1}
+					}
+				case ssa.CallInstruction:
+					callee := staticCallee(x)
+					if callee != nil && c.p.InZap(callee) && callee.Signature.Recv() != nil && len(x.Common().Args) > 0 && isLoadOfField(x.Common().Args[0], "interim", "w") {
+						if c.p.mustStoreField(callee, "CountHashWriter", "crc", 0) && c.p.mustStoreField(callee, "CountHashWriter", "n", 0) {
+							return []uint64{ev | 1}
+						}
+					}
+				}
+				return nil
+			}
+			pa := newPathAnalysis(nw, tr)
+			pa.run(0)
+			fresh := true
+			for _, ev := range pa.statesBefore(cs) {
+				if ev&1 == 0 {
+					fresh = false
+				}
+			}
+			if !fresh {
+				bad = append(bad, "on some path the counting writer whose CRC is used was not created (or fully reset) for this build: the CRC would continue from an earlier segment")
+			}
+		}
 		// chunk mode: the same value that was stored into interim.chunkMode
 		cmOK := false
 		eachInstr(nw, func(_ *ssa.BasicBlock, in ssa.Instruction) {
